@@ -1,5 +1,6 @@
 """C15 -- reflections, walls, fixed points (R1, U1). Narrow."""
 from ..rules import hyp_rules as H
+from ..rules import cache_rules as CA
 from ..rules import sibling_rules as SI
 from ..rules import shape_rules as SH
 from ..rules.common import u1
@@ -17,6 +18,7 @@ def run(ctx):
     ctx.do(SI.rule_eig1, only={"Hyperplane.from_reflection", "Isometry._fixpoint_data"})
     ctx.do(SH.rule_ax1, [SH.CORE, H.HYP], scope=ctx.scope(ENTRIES))
     ctx.do(SI.rule_ref1)
+    ctx.do(CA.rule_c2, "ProjectiveObject", scope=ctx.scope(ENTRIES))
     ctx.do(SI.rule_mean1, [SI.HYP], scope=ctx.scope(ENTRIES))
     ctx.do(SH.rule_sh5, only={"Subspace._data_with_dual", "Subspace.spacelike_complement", "Subspace.reflection_across", "Isometry.fixed_point_pair", "Isometry.fixed_point", "Isometry.axis", "Hyperplane.from_reflection", "Geodesic.from_reflection"})
     ctx.do(u1, ENTRIES, min_functions=15)
